@@ -26,7 +26,7 @@ use crate::{
         table::format_table_constructor,
         trivia::{
             strip_leading_trivia, strip_trivia, FormatTriviaType, UpdateLeadingTrivia,
-            UpdateTrailingTrivia,
+            UpdateTrailingTrivia, UpdateTrivia,
         },
         trivia_util::{
             self, CommentSearch, GetLeadingTrivia, GetTrailingTrivia, HasInlineComments,
@@ -873,17 +873,20 @@ pub fn format_function_body(
                 })
                 + return_type.as_ref().map_or(0, |x| x.to_string().len());
 
+            // The statement has no leading comments (checked in `should_collapse_function_body`), only whitespace:
+            // remove it, otherwise a blank line before the statement makes the collapsed block span multiple lines
+            let leading_trivia = FormatTriviaType::Replace(vec![]);
             let trailing_trivia = FormatTriviaType::Append(vec![Token::new(TokenType::spaces(1))]);
 
             let block = if let Some(last_stmt) = function_body.block().last_stmt() {
                 Block::new().with_last_stmt(Some((
                     format_last_stmt_no_trivia(ctx, last_stmt, block_shape)
-                        .update_trailing_trivia(trailing_trivia),
+                        .update_trivia(leading_trivia, trailing_trivia),
                     None,
                 )))
             } else if let Some(stmt) = function_body.block().stmts().next() {
                 let stmt = format_stmt_no_trivia(ctx, stmt, block_shape)
-                    .update_trailing_trivia(trailing_trivia);
+                    .update_trivia(leading_trivia, trailing_trivia);
                 Block::new().with_stmts(vec![(stmt, None)])
             } else {
                 unreachable!("Got a empty block but is_block_empty was false");
